@@ -5,7 +5,7 @@ CONSTANTS
   KP = {0, 1}
   KC = {0, 1}
   ActSet = "three"
-  PerKey = TRUE
+  PerKey = FALSE
   Toggle = FALSE
 VIEW View0
 INVARIANTS InvRefIntegrity InvKeys
